@@ -82,9 +82,20 @@ impl Stats {
     pub fn get(&self, name: &str) -> u64 {
         self.counters.get(name).copied().unwrap_or(0)
     }
+    /// counters whose name starts with "max." keep a maximum instead of a sum
+    pub fn max(&mut self, name: &str, v: u64) {
+        let c = self.counters.entry(name.to_string()).or_insert(0);
+        if v > *c {
+            *c = v;
+        }
+    }
     pub fn merge(&mut self, other: &Stats) {
         for (k, v) in &other.counters {
-            self.add(k, *v);
+            if k.starts_with("max.") {
+                self.max(k, *v);
+            } else {
+                self.add(k, *v);
+            }
         }
     }
 }
@@ -107,13 +118,14 @@ pub struct Ctx {
     pub record_turn_starts: bool,
     pub turn_starts: Vec<(usize, String)>,
     /// pool building (concurrent scenarios): states at which the repetition rules withhold something
+    pub dfs_budget: usize,
     pub capture_limit: usize,
     pub captured: Vec<(u8, arimaa_engine_step::GameState)>,
 }
 
 impl Ctx {
     pub fn new(own: PropMask) -> Ctx {
-        Ctx { own, findings: vec![], stats: Stats::default(), evals: 0, distinct: FpSet::default(), states: FpSet::default(), capped: false, digest: 0, record_turn_starts: false, turn_starts: vec![], capture_limit: 0, captured: vec![] }
+        Ctx { own, findings: vec![], stats: Stats::default(), evals: 0, distinct: FpSet::default(), states: FpSet::default(), capped: false, digest: 0, record_turn_starts: false, turn_starts: vec![], dfs_budget: 1000, capture_limit: 0, captured: vec![] }
     }
     /// record that monitor `monitor` (owned by `owners`) was evaluated; if `bad`, record a finding
     #[inline]
